@@ -198,7 +198,7 @@ func ruleADispatch(w *World, r *Report) {
 					continue
 				}
 				inputDesc = w.describeInput(fn, v, root)
-				if strings.HasPrefix(inputDesc, "ok:") {
+				if strings.HasPrefix(inputDesc, "ok:") && strings.Contains(inputDesc, "query built from this step's") {
 					okIn = true
 				}
 			}
